@@ -2,6 +2,7 @@ package props
 
 import (
 	"fmt"
+	"strings"
 	"testing"
 	"time"
 
@@ -140,8 +141,8 @@ func TestC02Rapid(t *testing.T) {
 				tu := *st.Tuple
 				offered[tu.key()] = tu
 				pk := fmt.Sprintf("%d|%s", tu.Bridge, tu.key())
-				if st.Res.OK() && st.Expect == "respell" {
-					rt.Fatalf("C02 violated at step %d: a claim naming the recipient in another spelling (%s) was paid: it is not the committed withdrawal, and the committed one can be paid as well\nhistory:\n%s", i, tu.To, w.history())
+				if st.Res.OK() && strings.HasPrefix(st.Expect, "respell") {
+					rt.Fatalf("C02 violated at step %d: a claim naming the recipient or the token in another spelling (%s, %s) was paid: it is not the committed withdrawal, and the committed one can be paid as well\nhistory:\n%s", i, tu.To, tu.Denom, w.history())
 				}
 				if st.Res.OK() {
 					if paidBefore[pk] {
